@@ -159,7 +159,9 @@ TripInvariant ==
         b2 == ParseArgsCall(b1, <<>>)
         od == a.opts[st.o]
         same(x, y) == IF od.kind = "map" THEN SeqToSet(x) = SeqToSet(y) ELSE x = y
-    IN (~od.hidden /\ ~od.noIni) =>
+        \* domain: no option of the declaration holds a value that its own choice list rejects (such a value is not reachable by parsing)
+        choicesOK == \A p \in 1..Len(a.d.opts) : a.opts[p].choices # <<>> => \A k \in 1..Len(a.val[p]) : InSeq(a.opts[p].choices, a.val[p][k])
+    IN (~od.hidden /\ ~od.noIni /\ choicesOK) =>
           /\ b1.ierr.t = "none"
           /\ b2.err.t \in {"none", "ErrRequired", "ErrCommandRequired"}
           /\ same(b2.val[st.o], st.content)
